@@ -3,7 +3,7 @@
    costs) is a function of grammar and input alone - no lookahead or debug
    parameter occurs in them - and the facts of the source the argument needs
    (clamp expression, cache distance threshold) are regenerated from yaep.c. *)
-From YV Require Import Prelude EarleySpec Recognizer Viable Lookahead Translate Dag Generated GeneratedChecks.
+From YV Require Import Prelude EarleySpec Recognizer Viable Lookahead Translate Dag Generated GeneratedChecks CacheModel.
 Local Open Scope Z_scope.
 
 Theorem C09_level_clamped : forall l, setter_store_0 l = Z.max 0 (Z.min 2 l).
@@ -52,3 +52,17 @@ Theorem C09_useful_items_survive : forall g axiom (keep : option nat -> item -> 
   forall w p i, useful g axiom w p i -> ItemF g axiom keep w p i.
 Proof. exact useful_ItemF. Qed.
 Print Assumptions C09_useful_items_survive.
+
+(* "Internally reusing a previously computed Earley set always yields the set a
+   fresh computation would produce": in the model of build_new_set (scan, then
+   completion through the sets at [place + 1 - distance]), when the validity
+   test of the cache succeeds - with the distance threshold found in the source
+   - and the parse list up to the place of caching is unchanged, a fresh
+   computation returns exactly the cached start situations. *)
+Theorem C09_cache_reuse_is_sound : forall after adv lhs empty_tail keep fuel pl pl' k k' a R,
+  build after adv lhs empty_tail keep fuel pl k a = Some R ->
+  (forall j, j <= k -> pl' j = pl j) -> pl' k' = pl k ->
+  cache_check (Z.to_nat cache_thr) pl' k k' R ->
+  build after adv lhs empty_tail keep fuel pl' k' a = Some R.
+Proof. exact cache_sound_src. Qed.
+Print Assumptions C09_cache_reuse_is_sound.
